@@ -43,6 +43,15 @@ thread_local! {
     /// Debug form to show exactly these values (read-back after ALL setters, including rebuild setters, were applied)
     static EXPECT: std::cell::RefCell<Vec<(String, String)>> = std::cell::RefCell::new(vec![]);
 }
+thread_local! {
+    /// set per case: the request holds a NON-finite value in a field whose documentation (or guard text) demands a finite
+    /// number (FTRL "positive and finite", logistic "positive, finite number", PLS / SVM-eps / hierarchical: NaN and
+    /// infinite named in the guard).  Such a builder must be rejected (`probe`, class `<b>:accepted:nonfinite`).
+    static DOC_FINITE: std::cell::Cell<bool> = std::cell::Cell::new(false);
+}
+fn doc_finite(nonfinite_present: bool) {
+    DOC_FINITE.with(|c| c.set(nonfinite_present));
+}
 fn expect(fields: &[(&str, String)]) {
     EXPECT.with(|e| *e.borrow_mut() = fields.iter().map(|(n, v)| (n.to_string(), v.clone())).collect());
 }
@@ -151,6 +160,25 @@ where
         (_, Err(t)) => format!("err:{}", t),
     };
     ctx.require(s_ref == s_val || s_val == "ok-changed", "check_eq_check_ref", b, || format!("check_ref -> {} but check -> {}", s_ref, s_val));
+    // third by-value path: the provided method `check_unwrap()` (overridable per impl) = `check().unwrap()`: on a valid
+    // builder the same parameters as `check()`, on an invalid one a panic (never unchecked parameters)
+    {
+        let cu = catch_unwind(AssertUnwindSafe(|| show_c(&mk().check_unwrap())));
+        let good = match (&r2, &cu) {
+            (Ok(c), Ok(u)) => c == u,
+            (Err(_), Err(_)) => true,
+            _ => false,
+        };
+        exercised(if r2.is_ok() { "check_unwrap_ok" } else { "check_unwrap_err" }, b);
+        ctx.require(good, "check_eq_check_ref", &format!("{}:check_unwrap", b), || format!("check() -> {:?} but check_unwrap() -> {}", r2, match &cu { Ok(u) => format!("Ok({})", u), Err(_) => "panic".to_string() }));
+    }
+    // values the documentation demands to be finite
+    if DOC_FINITE.with(|c| c.replace(false)) {
+        exercised("doc_nonfinite", b);
+        if r1.is_ok() {
+            ctx.fail("ok_iff_in_range", &format!("{}:accepted:nonfinite", b), format!("a NaN / infinite value in a field documented as finite passes checking: {}", orig));
+        }
+    }
     // documented range
     if finite {
         match (&r1, &viol) {
@@ -209,17 +237,19 @@ where
 // ------------------------------------------------------------------------------------------ grids
 
 fn fgrid(thorough: bool) -> Vec<f64> {
-    let mut v = vec![-1.0, -1e-9, 0.0, EPS / 2.0, EPS, 1e-4, 0.5, 1.0, 1.0 + EPS, 2.0, f64::NAN, f64::INFINITY, f64::NEG_INFINITY];
+    // (f64::MAX / f64::MIN / -EPS / 5e-324 also in the quick tier: an error path that panics only for |x| > f32::MAX —
+    //  a fallible cast in an `Err(..)` payload — or treats a subnormal as zero must not need the thorough tier)
+    let mut v = vec![-1.0, -1e-9, 0.0, EPS / 2.0, EPS, 1e-4, 0.5, 1.0, 1.0 + EPS, 2.0, f64::NAN, f64::INFINITY, f64::NEG_INFINITY, f64::MAX, f64::MIN, -EPS, 5e-324];
     if thorough {
-        v.extend([-1e6, -EPS, 5e-324, 1e-9, 1.0 - EPS / 2.0, 1.5, 1e6, f64::MAX, f64::MIN]);
+        v.extend([-1e6, 1e-9, 1.0 - EPS / 2.0, 1.5, 1e6]);
     }
     v
 }
 /// values exactly representable in f32 (count vectoriser frequencies)
 fn fgrid32(thorough: bool) -> Vec<f64> {
-    let mut v: Vec<f32> = vec![-1.0, -1e-9, 0.0, 1e-9, 0.25, 0.5, 1.0, 1.0 + f32::EPSILON, 1.5, f32::NAN, f32::INFINITY, f32::NEG_INFINITY];
+    let mut v: Vec<f32> = vec![-1.0, -1e-9, 0.0, 1e-9, 0.25, 0.5, 1.0, 1.0 + f32::EPSILON, 1.5, f32::NAN, f32::INFINITY, f32::NEG_INFINITY, f32::MAX, -f32::EPSILON];
     if thorough {
-        v.extend([-f32::EPSILON, f32::MIN_POSITIVE, 1.0 - f32::EPSILON / 2.0, 2.0, 1e6, f32::MAX]);
+        v.extend([f32::MIN_POSITIVE, 1.0 - f32::EPSILON / 2.0, 2.0, 1e6, f32::MIN]);
     }
     v.into_iter().map(|x| x as f64).collect()
 }
@@ -462,6 +492,7 @@ pub fn run(em: &mut Em, rng: &mut Rng) {
             }
             let ds = DatasetBase::new(xs(), ys_b());
             expect(&[("alpha", dbg(&al)), ("gradient_tolerance", dbg(&gt))]);
+            doc_finite(!finite);
             probe(ctx, "Logistic", || p.clone(), viol.clone(), finite, |p| dbg(p), |c| dbg(c), |e| dbg(&e), |p| res!(p.fit(&ds)), |c| res!(c.fit(&ds)))
         });
         // multinomial: the same values as a (features+1) x classes matrix, column-repeated
@@ -475,6 +506,7 @@ pub fn run(em: &mut Em, rng: &mut Rng) {
             }
             let ds = DatasetBase::new(xs(), ys_u());
             expect(&[("alpha", dbg(&al)), ("gradient_tolerance", dbg(&gt))]);
+            doc_finite(!finite);
             probe(ctx, "Logistic", || p.clone(), viol.clone(), finite, |p| dbg(p), |c| dbg(c), |e| dbg(&e), |p| res!(p.fit(&ds)), |c| res!(c.fit(&ds)))
         });
     }
@@ -517,7 +549,8 @@ pub fn run(em: &mut Em, rng: &mut Rng) {
             };
             em.count("builder:Svm");
             em.case(format!("grid b=Svm platt.maxiter={} platt.minstep={} platt.sigma={} solver_params_eps={} c={} nu={}", mi, h(ms), h(sg), h(eps), c_s, nu_s), |ctx| {
-                set_moderate(&[ms, sg, eps]);
+                // (`Svm<f64, bool>` never runs the calibration: the Platt values do not slow training down)
+                set_moderate(&[eps]);
                 let platt = Platt::<f64, ()>::params().maxiter(mi).minstep(ms).sigma(sg);
                 let mut p = linfa_svm::Svm::<f64, bool>::params().eps(eps).with_platt_params(platt);
                 p = match &w {
@@ -526,9 +559,10 @@ pub fn run(em: &mut Em, rng: &mut Rng) {
                 };
                 let viol = first(&[(mi >= 1, "platt.maxiter>=1"), (nonneg(ms), "platt.minstep>=0"), (nonneg(sg), "platt.sigma>=0"), (nonneg(eps), "eps>=0"), (wviol.is_none(), wviol.unwrap_or(""))]);
                 let ds = DatasetBase::new(xs(), ys_b());
-                // training is only run for solver tolerances that terminate quickly
-                let runnable = eps >= 1e-4;
+                // training is only run for solver tolerances and weights SMO handles quickly
+                let runnable = eps >= 1e-4 && match &w { W::C(a, b) => *a >= 1e-4 && *b >= 1e-4 && *a <= 2.0 && *b <= 2.0, W::Nu(v) => *v >= 1e-4 && *v <= 1.0 };
                 expect(&[("eps", dbg(&eps)), ("maxiter", dbg(&mi)), ("minstep", dbg(&ms)), ("sigma", dbg(&sg))]);
+                doc_finite(!eps.is_finite());
                 probe(ctx, "Svm", || p.clone(), viol, ms.is_finite() && sg.is_finite() && eps.is_finite() && wfin, |p| dbg(p), |c| dbg(c), |e| dbg(&e),
                     |p| if runnable || p.check_ref().is_err() { res!(p.fit(&ds)) } else { Ok("skipped".into()) },
                     |c| if runnable { res!(c.fit(&ds)) } else { Ok("skipped".into()) })
@@ -668,6 +702,7 @@ pub fn run(em: &mut Em, rng: &mut Rng) {
                         p
                     }};
                 }
+                doc_finite(!eps.is_finite());
                 let (line, back) = match kind {
                     "reg" => {
                         let mut p = linfa_svm::Svm::<f64, f64>::params().with_platt_params(platt);
@@ -791,6 +826,7 @@ pub fn run(em: &mut Em, rng: &mut Rng) {
             let viol = first(&[(unit(l1), "0<=l1_ratio<=1"), (unit(l2), "0<=l2_ratio<=1"), (nonneg(al), "alpha>=0"), (nonneg(be), "beta>=0")]);
             let ds = DatasetBase::new(xs(), ys_b());
             expect(&[("l1_ratio", dbg(&l1)), ("l2_ratio", dbg(&l2)), ("alpha", dbg(&al)), ("beta", dbg(&be))]);
+            doc_finite(!(l1.is_finite() && l2.is_finite() && al.is_finite() && be.is_finite()));
             probe(ctx, "Ftrl", || p.clone(), viol, l1.is_finite() && l2.is_finite() && al.is_finite() && be.is_finite(), |p| dbg(p), |c| dbg(c), |e| dbg(&e),
                 |p| res!(p.fit_with(None, &ds)), |c| res!(c.fit_with(None, &ds)))
         });
@@ -808,6 +844,7 @@ pub fn run(em: &mut Em, rng: &mut Rng) {
                     let ds = DatasetBase::new(xs(), ys_2());
                     // these builders implement neither Debug nor Clone: the guarded values are not readable
                     // from outside, so `params_unchanged` is observed through the fitted model only
+                    doc_finite(!tol.is_finite());
                     probe(ctx, "PlsMacro", mk, viol.clone(), tol.is_finite(), |_| "PlsParams".to_string(), |_| "PlsParams".to_string(), |e| dbg(&e),
                         |p| p.fit(&ds).map(|m| dbg(&m.weights())).map_err(|e| dbg(&e)), |c| c.fit(&ds).map(|m| dbg(&m.weights())).map_err(|e| dbg(&e)))
                 });
@@ -828,15 +865,20 @@ pub fn run(em: &mut Em, rng: &mut Rng) {
                 let p = linfa_tsne::TSneParams::embedding_size_with_rng(2, rng7()).perplexity(pe).approx_threshold(th_).max_iter(3);
                 let viol = first(&[(nonneg(pe), "perplexity>=0"), (nonneg(th_), "approx_threshold>=0")]);
                 // the embedding itself is only computed for parameter values bhtsne handles quickly
-                let runnable = pe.is_finite() && th_.is_finite() && pe >= 0.5 && pe <= 2.0;
+                let runnable = pe.is_finite() && th_.is_finite() && pe >= 1e-4 && pe <= 2.0;
                 let b = if form == "array" { "TSne" } else { "TSne:dataset" };
                 expect(&[("perplexity", dbg(&pe)), ("approx_threshold", dbg(&th_))]);
+                // only the SHAPE of the embedding (and the carried targets) is compared: bhtsne is not reproducible — two runs of the
+                // same checked parameters on the same seeded RNG differ in the second digit, also when run on one rayon thread —
+                // so "behaves exactly like its checked form" is not observable on the values
+                let det = false;
+                let outm = |m: &Array2<f64>| if det { dbg(m) } else { dbg(&m.dim()) };
                 if form == "array" {
                     probe(ctx, b, || p.clone(), viol, pe.is_finite() && th_.is_finite(), |p| dbg(p), |c| dbg(c), |e| dbg(&e),
-                        |p| if runnable || p.check_ref().is_err() { p.transform(xs()).map(|m| dbg(&m.dim())).map_err(|e| dbg(&e)) } else { Ok("skipped".into()) },
-                        |c| if runnable { c.transform(xs()).map(|m| dbg(&m.dim())).map_err(|e| dbg(&e)) } else { Ok("skipped".into()) })
+                        |p| if runnable || p.check_ref().is_err() { p.transform(xs()).map(|m| outm(&m)).map_err(|e| dbg(&e)) } else { Ok("skipped".into()) },
+                        |c| if runnable { c.transform(xs()).map(|m| outm(&m)).map_err(|e| dbg(&e)) } else { Ok("skipped".into()) })
                 } else {
-                    let out = |d: DatasetBase<Array2<f64>, Array1<usize>>| format!("{:?} targets={:?}", d.records().dim(), d.targets());
+                    let out = |d: DatasetBase<Array2<f64>, Array1<usize>>| format!("{} targets={:?}", outm(d.records()), d.targets());
                     probe(ctx, b, || p.clone(), viol, pe.is_finite() && th_.is_finite(), |p| dbg(p), |c| dbg(c), |e| dbg(&e),
                         |p| if runnable || p.check_ref().is_err() { p.transform(DatasetBase::new(xs(), ys_u())).map(out).map_err(|e| dbg(&e)) } else { Ok("skipped".into()) },
                         |c| if runnable { c.transform(DatasetBase::new(xs(), ys_u())).map(out).map_err(|e| dbg(&e)) } else { Ok("skipped".into()) })
@@ -937,6 +979,7 @@ pub fn run(em: &mut Em, rng: &mut Rng) {
                 if let Some(e) = e {
                     p = p.max_distance(e);
                 }
+                doc_finite(e.map_or(false, |e| !e.is_finite()));
                 probe(ctx, "Hierarchical", || p.clone(), viol.clone(), e.map_or(true, |e| e.is_finite()), |p| dbg(p), |c| dbg(c), |e| dbg(&e),
                     |p| p.transform(kernel()).map(|d| canon(d.targets())).map_err(|e| dbg(&e)), |c| Ok(canon(c.transform(kernel()).targets())))
             });
@@ -981,24 +1024,33 @@ pub fn run(em: &mut Em, rng: &mut Rng) {
                         }
                     };
                     let voc = |v: &Vec<String>| { let mut v = v.clone(); v.sort(); dbg(&v) };
+                    let ctx_method_ok = std::cell::Cell::new(true);
                     let (utf8, strict) = (linfa_preprocessing::verif_hooks_c04::utf8, linfa_preprocessing::verif_hooks_c04::strict);
+                    // TfIdfVectorizer: "wrapped result of the checked form" = the checked form's vocabulary AND the wrapper's
+                    // method (`default()`: Smooth) — the method must appear, the rest is compared with the checked form
+                    let tfout = |m: &linfa_preprocessing::tf_idf_vectorization::FittedTfIdfVectorizer| -> String {
+                        ctx_method_ok.set(ctx_method_ok.get() && *m.method() == linfa_preprocessing::tf_idf_vectorization::TfIdfMethod::Smooth);
+                        voc(m.vocabulary())
+                    };
                     let bname = format!("CountVectorizer:{}", form.split(':').nth(1).unwrap());
                     let bname = if form == "and_then:fit" { "CountVectorizer".to_string() } else { bname };
                     expect(&[("n_gram_range", dbg(&(a, b))), ("document_frequency", dbg(&(lo as f32, hi as f32)))]);
-                    probe(ctx, &bname, || p.clone(), viol, lo.is_finite() && hi.is_finite(), |p| show(dbg(p)), |c| show(dbg(c)), |e| dbg(&e),
+                    let line = probe(ctx, &bname, || p.clone(), viol, lo.is_finite() && hi.is_finite(), |p| show(dbg(p)), |c| show(dbg(c)), |e| dbg(&e),
                         |p| match form {
                             "and_then:fit" => p.fit(&docs).map(|m| voc(m.vocabulary())).map_err(|e| dbg(&e)),
                             "and_then:fit_vocabulary" => p.fit_vocabulary(&words).map(|m| voc(m.vocabulary())).map_err(|e| dbg(&e)),
                             "and_then:fit_files" => p.fit_files(&paths, utf8(), strict()).map(|m| voc(m.vocabulary())).map_err(|e| dbg(&e)),
-                            "wrap:tfidf_fit" => tf.fit(&docs).map(|m| voc(m.vocabulary())).map_err(|e| dbg(&e)),
-                            "wrap:tfidf_fit_vocabulary" => tf.fit_vocabulary(&words).map(|m| voc(m.vocabulary())).map_err(|e| dbg(&e)),
-                            _ => tf.fit_files(&paths, utf8(), strict()).map(|m| voc(m.vocabulary())).map_err(|e| dbg(&e)),
+                            "wrap:tfidf_fit" => tf.fit(&docs).map(|m| tfout(&m)).map_err(|e| dbg(&e)),
+                            "wrap:tfidf_fit_vocabulary" => tf.fit_vocabulary(&words).map(|m| tfout(&m)).map_err(|e| dbg(&e)),
+                            _ => tf.fit_files(&paths, utf8(), strict()).map(|m| tfout(&m)).map_err(|e| dbg(&e)),
                         },
                         |c| match form {
                             "and_then:fit" | "wrap:tfidf_fit" => c.fit(&docs).map(|m| voc(m.vocabulary())).map_err(|e| dbg(&e)),
                             "and_then:fit_vocabulary" | "wrap:tfidf_fit_vocabulary" => c.fit_vocabulary(&words).map(|m| voc(m.vocabulary())).map_err(|e| dbg(&e)),
                             _ => c.fit_files(&paths, utf8(), strict()).map(|m| voc(m.vocabulary())).map_err(|e| dbg(&e)),
-                        })
+                        });
+                    ctx.require(ctx_method_ok.get(), "valid_as_checked", &format!("{}:method", bname), || "the fitted TfIdfVectorizer does not carry the wrapper's method (Smooth)".to_string());
+                    line
                 });
             }
         }
@@ -1059,25 +1111,8 @@ pub fn run(em: &mut Em, rng: &mut Rng) {
         one(em, "CountVectorizer.min_freq", true, &|| linfa_preprocessing::CountVectorizer::params().document_frequency(-0.0f32, 0.5).check_ref().is_ok());
         one(em, "DecisionTree.min_impurity_decrease", false, &|| linfa_trees::DecisionTree::<f64, usize>::params().min_impurity_decrease(nz).check_ref().is_ok());
     }
-    // ---- documented ranges of parameters NO guard reads (oracle only: the translated `Params` holds exactly the
-    //      fields the guard reads).  Elastic net: the builder's parameter table gives max_iterations `[1, inf)`.
-    for mi in [0u32, 1, 50] {
-        em.count("docrange:ElasticNet.max_iterations");
-        em.case(format!("#docrange field=ElasticNet.max_iterations value={}", mi), |ctx| {
-            let single = linfa_elasticnet::ElasticNet::<f64>::params().max_iterations(mi);
-            let multi = linfa_elasticnet::MultiTaskElasticNet::<f64>::params().max_iterations(mi);
-            let ok = (single.check_ref().is_ok(), multi.check_ref().is_ok());
-            if mi == 0 && (ok.0 || ok.1) {
-                let m = single.fit(&DatasetBase::new(xs(), ys_f())).map(|m| format!("hyperplane {:?} intercept {:?}", m.hyperplane(), m.intercept())).map_err(|e| dbg(&e));
-                ctx.fail("ok_iff_in_range", "ElasticNet:accepted:doc:max_iterations>=1", format!("max_iterations(0) is outside the documented range [1, inf) (hyperparams.rs parameter table) but passes check_ref (single {}, multi {}); fit -> {:?}", ok.0, ok.1, m));
-            }
-            if mi >= 1 && !(ok.0 && ok.1) {
-                ctx.fail("ok_iff_in_range", "ElasticNet:rejected:doc:max_iterations>=1", format!("max_iterations({}) is inside the documented range but is rejected", mi));
-            }
-            "-".to_string()
-        });
-    }
     run_rebuild(em, rng);
+    run_round3(em, rng);
     em.count_n("fit_not_exercised(extreme valid values)", NOT_EXERCISED.with(|c| c.get()));
     EXERCISED.with(|m| {
         for (k, v) in m.borrow().iter() {
@@ -1266,6 +1301,7 @@ fn run_rebuild(em: &mut Em, rng: &mut Rng) {
                 let viol = first(&[(nonneg(a), "alpha>=0"), (pos(g), "gradient_tolerance>0")]);
                 let ds = DatasetBase::new(xs(), ys_b());
                 expect(&[("alpha", dbg(&a)), ("gradient_tolerance", dbg(&g))]);
+                doc_finite(!(a.is_finite() && g.is_finite()));
                 probe(ctx, &format!("Logistic:{}", variant), || p.clone(), viol, a.is_finite() && g.is_finite(), |p| dbg(p), |c| dbg(c), |e| dbg(&e), |p| res!(p.fit(&ds)), |c| res!(c.fit(&ds)))
             });
         }
@@ -1343,6 +1379,7 @@ fn run_rebuild(em: &mut Em, rng: &mut Rng) {
                 let viol = first(&[(unit(l1), "0<=l1_ratio<=1"), (unit(l2), "0<=l2_ratio<=1"), (nonneg(al), "alpha>=0"), (nonneg(be), "beta>=0")]);
                 let ds = DatasetBase::new(xs(), ys_b());
                 expect(&[("l1_ratio", dbg(&l1)), ("l2_ratio", dbg(&l2)), ("alpha", dbg(&al)), ("beta", dbg(&be))]);
+                doc_finite(!(l1.is_finite() && l2.is_finite() && al.is_finite() && be.is_finite()));
                 probe(ctx, &format!("Ftrl:{}", variant), || p.clone(), viol, l1.is_finite() && l2.is_finite() && al.is_finite() && be.is_finite(), |p| dbg(p), |c| dbg(c), |e| dbg(&e),
                     |p| res!(p.fit_with(None, &ds)), |c| res!(c.fit_with(None, &ds)))
             });
@@ -1358,6 +1395,7 @@ fn run_rebuild(em: &mut Em, rng: &mut Rng) {
                 train_always();
                 let mk = || if variant == "rev" { linfa_pls::PlsRegression::<f64>::params(1).max_iterations(mi).tolerance(tol) } else { linfa_pls::PlsRegression::<f64>::params(1).tolerance(tol).max_iterations(mi).scale(false).algorithm(linfa_pls::Algorithm::Nipals) };
                 let ds = DatasetBase::new(xs(), ys_2());
+                doc_finite(!tol.is_finite());
                 probe(ctx, &format!("PlsMacro:{}", variant), mk, viol.clone(), tol.is_finite(), |_| "PlsParams".to_string(), |_| "PlsParams".to_string(), |e| dbg(&e),
                     |p| p.fit(&ds).map(|m| dbg(&m.weights())).map_err(|e| dbg(&e)), |c| c.fit(&ds).map(|m| dbg(&m.weights())).map_err(|e| dbg(&e)))
             });
@@ -1410,6 +1448,7 @@ fn run_rebuild(em: &mut Em, rng: &mut Rng) {
                     expect(&[("stopping", format!("Distance({:?})", e))]);
                 }
                 p = p.with_method(linfa_hierarchical::Method::Single);
+                doc_finite(e.map_or(false, |e| !e.is_finite()));
                 probe(ctx, &format!("Hierarchical:{}", variant), || p.clone(), viol.clone(), e.map_or(true, |e| e.is_finite()), |p| dbg(p), |c| dbg(c), |e| dbg(&e),
                     |p| p.transform(kernel()).map(|d| canon(d.targets())).map_err(|e| dbg(&e)), |c| Ok(canon(c.transform(kernel()).targets())))
             });
@@ -1498,3 +1537,405 @@ fn run_rebuild(em: &mut Em, rng: &mut Rng) {
         });
     }
 }
+
+// ------------------------------------------------------------------------------------ round 3 streams
+//
+// (1) constructors and setters no other stream calls, as further `rebuild=other:…` variants (a setter / constructor that
+//     does not assign a guarded field is the identity on the translated `Params`): `KMeans::params_with_rng`,
+//     `KMeans::params`, `Optics::params_with`, `Dbscan::params_with`, `GaussianMixtureModel::params`, `Ftrl::params`,
+//     `ElasticNet::ridge / lasso` (single and multi task), Tweedie `link`, SVM `linear_kernel` / `polynomial_kernel` /
+//     `with_kernel_params`, PlsCanonical / PlsCca `scale + algorithm`, multinomial logistic `with_intercept + max_iterations`;
+//     on the one-at-a-time deviations from a valid point.
+// (2) setter chains of `CountVectorizerParams` / `TfIdfVectorizer` (`sets=…`): the request carries only the calls; the
+//     model runs them through `cvRun` / `tfidfRun`.
+// (3) elastic net with `max_iterations=<n>` in the request: `docrange=` is the FULL documented range (parameter table).
+// (4) `#docpin`: the documentation lines the two hand transcriptions were read from, pinned by hash.
+fn run_round3(em: &mut Em, rng: &mut Rng) {
+    let fg = fgrid(false);
+    let cg = cgrid(false);
+    let (nf, nc) = (fg.len(), cg.len());
+    let fb = fg.iter().position(|x| *x == 0.5).unwrap();
+    let cb = cg.iter().position(|x| *x == 2).unwrap();
+    use linfa_nn::{distance::L2Dist, CommonNearestNeighbour::KdTree};
+
+    // ---- k-means constructors
+    for t in points(&[nc, nc, nf, nc], &[cb, cb, fb, cb], 0, rng) {
+        let (k, r, tol, mi) = (cg[t[0]], cg[t[1]], fg[t[2]], cg[t[3]]);
+        for variant in ["other:ctor_params_with_rng:before", "other:ctor_params:before"] {
+            em.count(&format!("rebuild:KMeans:{}", variant));
+            em.case(format!("grid b=KMeans via=fit rebuild={} n_clusters={} n_runs={} tolerance={} max_n_iterations={}", variant, k, r, h(tol), mi), |ctx| {
+                train_always();
+                let viol = first(&[(k >= 1, "n_clusters>=1"), (r >= 1, "n_runs>=1"), (pos(tol), "tolerance>0"), (mi >= 1, "max_n_iterations>=1")]);
+                let ds = DatasetBase::from(xs());
+                expect(&[("n_clusters", dbg(&k)), ("n_runs", dbg(&r)), ("tolerance", dbg(&tol)), ("max_n_iterations", dbg(&mi))]);
+                let b = format!("KMeans:{}", variant);
+                if variant == "other:ctor_params:before" {
+                    let p = linfa_clustering::KMeans::<f64, L2Dist>::params(k).n_runs(r).tolerance(tol).max_n_iterations(mi as u64);
+                    probe(ctx, &b, || p.clone(), viol, tol.is_finite(), |p| dbg(p), |c| dbg(c), |e| format!("InvalidParams({:?})", e), |p| res!(p.fit(&ds)), |c| res!(c.fit(&ds)))
+                } else {
+                    let p = linfa_clustering::KMeans::<f64, L2Dist>::params_with_rng(k, rng7()).n_runs(r).tolerance(tol).max_n_iterations(mi as u64);
+                    probe(ctx, &b, || p.clone(), viol, tol.is_finite(), |p| dbg(p), |c| dbg(c), |e| format!("InvalidParams({:?})", e), |p| res!(p.fit(&ds)), |c| res!(c.fit(&ds)))
+                }
+            });
+        }
+    }
+    // ---- DBSCAN / OPTICS `params_with`
+    for t in points(&[nc, nf], &[cb, fb], 0, rng) {
+        let (mp, tol) = (cg[t[0]], fg[t[1]]);
+        let variant = "other:ctor_params_with:before";
+        em.count("rebuild:Dbscan:ctor");
+        em.case(format!("grid b=Dbscan via=transform rebuild={} min_points={} tolerance={}", variant, mp, h(tol)), |ctx| {
+            train_always();
+            let p = linfa_clustering::Dbscan::params_with(mp, L2Dist, KdTree).tolerance(tol);
+            let viol = first(&[(mp >= 2, "min_points>=2"), (pos(tol), "tolerance>0")]);
+            let x = xs();
+            expect(&[("min_points", dbg(&mp)), ("tolerance", dbg(&tol))]);
+            probe(ctx, &format!("Dbscan:{}", variant), || p.clone(), viol, tol.is_finite(), |p| dbg(p), |c| dbg(c), |e| dbg(&e), |p| res!(p.transform(&x)), |c| Ok(dbg(&c.transform(&x))))
+        });
+        em.count("rebuild:Optics:ctor");
+        em.case(format!("grid b=Optics via=transform rebuild={} tolerance={} min_points={}", variant, h(tol), mp), |ctx| {
+            train_always();
+            let p = linfa_clustering::Optics::params_with(mp, L2Dist, KdTree).tolerance(tol);
+            let viol = first(&[(pos(tol), "tolerance>0"), (mp >= 2, "min_points>=2")]);
+            let x = xs();
+            expect(&[("min_points", dbg(&mp)), ("tolerance", dbg(&tol))]);
+            probe(ctx, &format!("Optics:{}", variant), || p.clone(), viol, tol.is_finite(), |p| dbg(p), |c| dbg(c), |e| dbg(&e), |p| res!(p.transform(x.view())), |c| Ok(dbg(&c.transform(x.view()))))
+        });
+    }
+    // ---- Gaussian mixture `params` (default RNG)
+    for t in points(&[nc, nf, nf, nc, nc], &[cb, fb, fb, cb, cb], 0, rng) {
+        let (k, tol, reg, r, mi) = (cg[t[0]], fg[t[1]], fg[t[2]], cg[t[3]], cg[t[4]]);
+        let variant = "other:ctor_params:before";
+        em.count("rebuild:Gmm:ctor");
+        em.case(format!("grid b=Gmm via=fit rebuild={} n_clusters={} tolerance={} reg_covar={} n_runs={} max_n_iter={}", variant, k, h(tol), h(reg), r, mi), |ctx| {
+            train_always();
+            let viol = first(&[(k >= 1, "n_clusters>=1"), (pos(tol), "tolerance>0"), (nonneg(reg), "reg_covar>=0"), (r >= 1, "n_runs>=1"), (mi >= 1, "max_n_iter>=1")]);
+            let ds = DatasetBase::from(xs());
+            expect(&[("n_clusters", dbg(&k)), ("tolerance", dbg(&tol)), ("reg_covar", dbg(&reg)), ("n_runs", dbg(&r)), ("max_n_iter", dbg(&mi))]);
+            let p = linfa_clustering::GaussianMixtureModel::<f64>::params(k).tolerance(tol).reg_covariance(reg).n_runs(r as u64).max_n_iterations(mi as u64);
+            probe(ctx, &format!("Gmm:{}", variant), || p.clone(), viol, tol.is_finite() && reg.is_finite(), |p| dbg(p), |c| dbg(c), |e| dbg(&e), |p| res!(p.fit(&ds)), |c| res!(c.fit(&ds)))
+        });
+    }
+    // ---- FTRL `params` (default RNG)
+    for t in points(&[nf, nf, nf, nf], &[fb, fb, fb, fb], 0, rng) {
+        let (l1, l2, al, be) = (fg[t[0]], fg[t[1]], fg[t[2]], fg[t[3]]);
+        let variant = "other:ctor_params:before";
+        em.count("rebuild:Ftrl:ctor");
+        em.case(format!("grid b=Ftrl via=fit_with rebuild={} l1_ratio={} l2_ratio={} alpha={} beta={}", variant, h(l1), h(l2), h(al), h(be)), |ctx| {
+            train_always();
+            let p = linfa_ftrl::Ftrl::<f64>::params().l1_ratio(l1).l2_ratio(l2).alpha(al).beta(be);
+            let viol = first(&[(unit(l1), "0<=l1_ratio<=1"), (unit(l2), "0<=l2_ratio<=1"), (nonneg(al), "alpha>=0"), (nonneg(be), "beta>=0")]);
+            let ds = DatasetBase::new(xs(), ys_b());
+            expect(&[("l1_ratio", dbg(&l1)), ("l2_ratio", dbg(&l2)), ("alpha", dbg(&al)), ("beta", dbg(&be))]);
+            doc_finite(!(l1.is_finite() && l2.is_finite() && al.is_finite() && be.is_finite()));
+            probe(ctx, &format!("Ftrl:{}", variant), || p.clone(), viol, l1.is_finite() && l2.is_finite() && al.is_finite() && be.is_finite(), |p| dbg(p), |c| dbg(c), |e| dbg(&e),
+                |p| res!(p.fit_with(None, &ds)), |c| res!(c.fit_with(None, &ds)))
+        });
+    }
+    // ---- elastic net `ridge()` / `lasso()` (constructors that pre-set l1_ratio), single and multi task; multi task reversed
+    for t in points(&[nf, nf, nf], &[fb, fb, fb], 0, rng) {
+        let (pen, l1, tol) = (fg[t[0]], fg[t[1]], fg[t[2]]);
+        let viol = first(&[(nonneg(pen), "penalty>=0"), (unit(l1), "0<=l1_ratio<=1"), (nonneg(tol), "tolerance>=0")]);
+        let finite = pen.is_finite() && l1.is_finite() && tol.is_finite();
+        for (variant, task) in [("other:ctor_ridge:before", "single"), ("other:ctor_lasso:before", "single"), ("other:ctor_ridge:before", "multi"), ("other:ctor_lasso:before", "multi"), ("rev", "multi")] {
+            em.count(&format!("rebuild:ElasticNet:{}:{}", task, variant));
+            em.case(format!("grid b=ElasticNet task={} via=fit rebuild={} penalty={} l1_ratio={} tolerance={}", task, variant, h(pen), h(l1), h(tol)), |ctx| {
+                train_always();
+                expect(&[("penalty", dbg(&pen)), ("l1_ratio", dbg(&l1)), ("tolerance", dbg(&tol))]);
+                let b = format!("ElasticNet:{}:{}", task, variant);
+                if task == "single" {
+                    let base = if variant.contains("ridge") { linfa_elasticnet::ElasticNet::<f64>::ridge() } else { linfa_elasticnet::ElasticNet::<f64>::lasso() };
+                    let p = base.penalty(pen).l1_ratio(l1).tolerance(tol).max_iterations(50);
+                    let ds = DatasetBase::new(xs(), ys_f());
+                    probe(ctx, &b, || p.clone(), viol.clone(), finite, |p| dbg(p), |c| dbg(c), |e| dbg(&e), |p| res!(p.fit(&ds)), |c| res!(c.fit(&ds)))
+                } else {
+                    let p = match variant {
+                        "rev" => linfa_elasticnet::MultiTaskElasticNet::<f64>::params().max_iterations(50).tolerance(tol).l1_ratio(l1).penalty(pen),
+                        v if v.contains("ridge") => linfa_elasticnet::MultiTaskElasticNet::<f64>::ridge().penalty(pen).l1_ratio(l1).tolerance(tol).max_iterations(50),
+                        _ => linfa_elasticnet::MultiTaskElasticNet::<f64>::lasso().penalty(pen).l1_ratio(l1).tolerance(tol).max_iterations(50),
+                    };
+                    let ds = DatasetBase::new(xs(), ys_2());
+                    probe(ctx, &b, || p.clone(), viol.clone(), finite, |p| dbg(p), |c| dbg(c), |e| dbg(&e), |p| res!(p.fit(&ds)), |c| res!(c.fit(&ds)))
+                }
+            });
+        }
+    }
+    // ---- Tweedie `link`, multinomial logistic `with_intercept + max_iterations`
+    for t in points(&[nf, nf], &[fb, fb], 0, rng) {
+        let (a, g) = (fg[t[0]], fg[t[1]]);
+        {
+            let variant = "other:link:after";
+            em.count("rebuild:Tweedie:link");
+            em.case(format!("grid b=Tweedie via=fit rebuild={} alpha={} power={}", variant, h(a), h(g)), |ctx| {
+                set_moderate(&[a, g]);
+                let p = linfa_linear::TweedieRegressor::<f64>::params().alpha(a).power(g).max_iter(10).link(linfa_linear::Link::Log);
+                let viol = first(&[(nonneg(a), "alpha>=0"), (g.is_finite() && (g <= 0.0 || g >= 1.0), "power not in (0,1)")]);
+                let ds = DatasetBase::new(xs(), ys_f());
+                expect(&[("alpha", dbg(&a)), ("power", dbg(&g))]);
+                // (a valid builder is NOT trained here: with an explicit Log link and power = -1, alpha = 0.5 the L-BFGS line
+                //  search of the checked and the unchecked form alike does not return on the 12-row dataset; verdicts,
+                //  read-back and the exact error of `fit` on every invalid point are still compared)
+                probe(ctx, &format!("Tweedie:{}", variant), || p.clone(), viol, a.is_finite() && g.is_finite(), |p| dbg(p), |c| dbg(c), |e| dbg(&e),
+                    |p| if p.check_ref().is_err() { res!(p.fit(&ds)) } else { Ok("skipped".into()) }, |_c| Ok("skipped".into()))
+            });
+        }
+        {
+            let variant = "other:with_intercept+max_iterations:after";
+            em.count("rebuild:Logistic:multi");
+            em.case(format!("grid b=Logistic kind=multi via=fit rebuild={} alpha={} gradient_tolerance={} initial_params=none", variant, h(a), h(g)), |ctx| {
+                set_moderate(&[a, g]);
+                let p = linfa_logistic::MultiLogisticRegression::<f64>::default().alpha(a).gradient_tolerance(g).with_intercept(false).max_iterations(10);
+                let viol = first(&[(nonneg(a), "alpha>=0"), (pos(g), "gradient_tolerance>0")]);
+                let ds = DatasetBase::new(xs(), ys_u());
+                expect(&[("alpha", dbg(&a)), ("gradient_tolerance", dbg(&g))]);
+                doc_finite(!(a.is_finite() && g.is_finite()));
+                probe(ctx, &format!("Logistic:multi:{}", variant), || p.clone(), viol, a.is_finite() && g.is_finite(), |p| dbg(p), |c| dbg(c), |e| dbg(&e), |p| res!(p.fit(&ds)), |c| res!(c.fit(&ds)))
+            });
+        }
+    }
+    // ---- SVM: the other kernel setters after eps and the weights
+    for v in &fg {
+        let eps = *v;
+        for variant in ["other:linear_kernel:after", "other:polynomial_kernel:after", "other:with_kernel_params:after"] {
+            em.count("rebuild:Svm:kernels");
+            em.case(format!("grid b=Svm via=fit rebuild={} platt.maxiter=100 platt.minstep={} platt.sigma={} solver_params_eps={} c={},{} nu=none", variant, h(1e-10), h(1e-12), h(eps), h(1.0), h(0.5)), |ctx| {
+                set_moderate(&[eps]);
+                let platt = Platt::<f64, ()>::params().maxiter(100).minstep(1e-10).sigma(1e-12);
+                let p = linfa_svm::Svm::<f64, bool>::params().with_platt_params(platt).eps(eps).pos_neg_weights(1.0, 0.5);
+                let p = match variant {
+                    "other:linear_kernel:after" => p.linear_kernel(),
+                    "other:polynomial_kernel:after" => p.polynomial_kernel(1.0, 2.0),
+                    _ => p.with_kernel_params(linfa_kernel::Kernel::params().method(linfa_kernel::KernelMethod::Gaussian(2.0))),
+                };
+                let viol = first(&[(nonneg(eps), "eps>=0")]);
+                let ds = DatasetBase::new(xs(), ys_b());
+                let runnable = eps >= 1e-4;
+                expect(&[("eps", dbg(&eps)), ("c", "Some((1.0, 0.5))".to_string()), ("nu", "None".to_string())]);
+                doc_finite(!eps.is_finite());
+                probe(ctx, &format!("Svm:{}", variant), || p.clone(), viol, eps.is_finite(), |p| dbg(p), |c| dbg(c), |e| dbg(&e),
+                    |p| if runnable || p.check_ref().is_err() { res!(p.fit(&ds)) } else { Ok("skipped".into()) },
+                    |c| if runnable { res!(c.fit(&ds)) } else { Ok("skipped".into()) })
+            });
+        }
+    }
+    // ---- PlsCanonical / PlsCca: scale + algorithm after (the regression builder is in `run_rebuild`)
+    for t in points(&[nf, nc], &[fb, cb], 0, rng) {
+        let (tol, mi) = (fg[t[0]], cg[t[1]]);
+        let viol = first(&[(nonneg(tol), "tolerance>=0"), (mi >= 1, "max_iter>=1")]);
+        let variant = "other:scale+algorithm:after";
+        macro_rules! pls {
+            ($name:expr, $ty:ident) => {
+                em.count(&format!("rebuild:Pls:{}", $name));
+                em.case(format!("grid b=PlsMacro kind={} via=fit rebuild={} tolerance={} max_iter={}", $name, variant, h(tol), mi), |ctx| {
+                    train_always();
+                    let mk = || linfa_pls::$ty::<f64>::params(1).tolerance(tol).max_iterations(mi).scale(false).algorithm(linfa_pls::Algorithm::Nipals);
+                    let ds = DatasetBase::new(xs(), ys_2());
+                    doc_finite(!tol.is_finite());
+                    probe(ctx, &format!("PlsMacro:{}:{}", $name, variant), mk, viol.clone(), tol.is_finite(), |_| "PlsParams".to_string(), |_| "PlsParams".to_string(), |e| dbg(&e),
+                        |p| p.fit(&ds).map(|m| dbg(&m.weights())).map_err(|e| dbg(&e)), |c| c.fit(&ds).map(|m| dbg(&m.weights())).map_err(|e| dbg(&e)))
+                });
+            };
+        }
+        pls!("canonical", PlsCanonical);
+        pls!("cca", PlsCca);
+    }
+
+    // ---- (2) setter chains of the count vectoriser and of the TfIdfVectorizer wrapper
+    {
+        #[derive(Clone, Debug)]
+        enum C {
+            Ng(usize, usize),
+            Df(f32, f32),
+            Tok(bool),
+            MaxF,
+            Lower,
+            Norm,
+            Stop,
+        }
+        let tok = |c: &C| match c {
+            C::Ng(a, b) => format!("ng:{},{}", a, b),
+            C::Df(a, b) => format!("df:{},{}", h(*a as f64), h(*b as f64)),
+            C::Tok(ok) => format!("tok:{}", *ok as u8),
+            C::MaxF => "maxf".to_string(),
+            C::Lower => "lower".to_string(),
+            C::Norm => "norm".to_string(),
+            C::Stop => "stop".to_string(),
+        };
+        let ngv = [0usize, 1, 2, 3];
+        let dfv: Vec<f32> = vec![-1.0, -1e-9, 0.0, 0.25, 0.5, 1.0, 1.0 + f32::EPSILON, 1.5, f32::NAN, f32::INFINITY, f32::MAX];
+        let n = if em.thorough() { 1500 } else { 160 };
+        let mut chains: Vec<Vec<C>> = vec![vec![], vec![C::MaxF, C::Lower, C::Norm, C::Stop]];
+        for _ in 0..n {
+            let len = 1 + rng.below(6);
+            let mut c = vec![];
+            for _ in 0..len {
+                c.push(match rng.below(8) {
+                    0 | 1 => if rng.chance(1, 2) { C::Ng(1 + rng.below(2), 2 + rng.below(2)) } else { C::Ng(ngv[rng.below(4)], ngv[rng.below(4)]) },
+                    2 | 3 => if rng.chance(1, 2) { C::Df([0.0f32, 0.25][rng.below(2)], [0.5f32, 1.0][rng.below(2)]) } else { C::Df(dfv[rng.below(dfv.len())], dfv[rng.below(dfv.len())]) },
+                    4 => C::Tok(rng.chance(2, 3)),
+                    5 => C::MaxF,
+                    6 => if rng.chance(1, 2) { C::Lower } else { C::Norm },
+                    _ => C::Stop,
+                });
+            }
+            chains.push(c);
+        }
+        let texts = ["one two three four", "one two three", "one two", "one five six"];
+        for (i, chain) in chains.into_iter().enumerate() {
+            let form = if i % 2 == 0 { "and_then:fit" } else { "wrap:tfidf_fit" };
+            em.count(&format!("cvsetters:{}", form));
+            let ops = if chain.is_empty() { "-".to_string() } else { chain.iter().map(|c| tok(c)).collect::<Vec<_>>().join(";") };
+            em.case(format!("grid b=CountVectorizer via={} sets={}", form, ops), |ctx| {
+                train_always();
+                // the harness's own reading of the setter documentation: the last call of a setter decides its field
+                let (mut ng, mut df, mut rok) = ((1usize, 1usize), (0.0f32, 1.0f32), true);
+                let mut p = linfa_preprocessing::CountVectorizer::params();
+                let mut tf = linfa_preprocessing::tf_idf_vectorization::TfIdfVectorizer::default();
+                for c in &chain {
+                    match c {
+                        C::Ng(a, b) => { ng = (*a, *b); p = p.n_gram_range(*a, *b); tf = tf.n_gram_range(*a, *b); }
+                        C::Df(a, b) => { df = (*a, *b); p = p.document_frequency(*a, *b); tf = tf.document_frequency(*a, *b); }
+                        C::Tok(ok) => {
+                            rok = *ok;
+                            let e = if *ok { r"\b\w+\b" } else { "(unclosed" };
+                            p = p.tokenizer(linfa_preprocessing::Tokenizer::Regex(e.to_string()));
+                            tf = tf.tokenizer(linfa_preprocessing::Tokenizer::Regex(e.to_string()));
+                        }
+                        C::MaxF => { p = p.max_features(Some(50)); tf = tf.max_features(Some(50)); }
+                        C::Lower => { p = p.convert_to_lowercase(false); tf = tf.convert_to_lowercase(false); }
+                        C::Norm => { p = p.normalize(false); tf = tf.normalize(false); }
+                        C::Stop => { p = p.stopwords(&["zzz"]); tf = tf.stopwords(&["zzz"]); }
+                    }
+                }
+                let (a, b, lo, hi) = (ng.0, ng.1, df.0 as f64, df.1 as f64);
+                let viol = first(&[(a >= 1 && b >= 1, "n_gram>=1"), (a <= b, "min_n<=max_n"), (unit(lo), "0<=min_freq<=1"), (unit(hi), "0<=max_freq<=1"), (lo <= hi, "min_freq<=max_freq"), (rok, "regex valid")]);
+                let docs = Array1::from(texts.to_vec());
+                let show = |s: String| -> String {
+                    match (s.find("split_regex: "), s.find("n_gram_range: ")) {
+                        (Some(i), Some(j)) if i < j => format!("{}{}", &s[..i], &s[j..]),
+                        _ => s,
+                    }
+                };
+                let voc = |v: &Vec<String>| { let mut v = v.clone(); v.sort(); dbg(&v) };
+                let tf_text = dbg(&tf);
+                for (name, val) in [("n_gram_range", dbg(&ng)), ("document_frequency", dbg(&df))] {
+                    ctx.require(has_field(&tf_text, name, &val), "params_unchanged", &format!("TfIdfVectorizer:setters:readback:{}", name), || format!("after {:?} the TfIdfVectorizer does not hold {} = {}: {}", chain, name, val, tf_text));
+                }
+                expect(&[("n_gram_range", dbg(&ng)), ("document_frequency", dbg(&df))]);
+                let bname = format!("CountVectorizer:setters:{}", form.split(':').nth(1).unwrap());
+                let line = probe(ctx, &bname, || p.clone(), viol, lo.is_finite() && hi.is_finite(), |p| show(dbg(p)), |c| show(dbg(c)), |e| dbg(&e),
+                    |p| if form == "and_then:fit" { p.fit(&docs).map(|m| voc(m.vocabulary())).map_err(|e| dbg(&e)) } else { tf.fit(&docs).map(|m| voc(m.vocabulary())).map_err(|e| dbg(&e)) },
+                    |c| c.fit(&docs).map(|m| voc(m.vocabulary())).map_err(|e| dbg(&e)));
+                format!("{} ng={},{} rok={}", line, a, b, rok as u8)
+            });
+        }
+    }
+
+    // ---- (3) elastic net: the full documented range (the parameter table gives `max_iterations` the range `[1, inf)`,
+    //      no guard reads it).  The request carries `max_iterations`; the model evaluates `Ranges.ElasticNet.DocRange`.
+    for t in points(&[nf, nf, nf], &[fb, fb, fb], 0, rng) {
+        let (pen, l1, tol) = (fg[t[0]], fg[t[1]], fg[t[2]]);
+        let viol = first(&[(nonneg(pen), "penalty>=0"), (unit(l1), "0<=l1_ratio<=1"), (nonneg(tol), "tolerance>=0")]);
+        let finite = pen.is_finite() && l1.is_finite() && tol.is_finite();
+        for mi in [0u32, 1, 50] {
+            for task in ["single", "multi"] {
+                em.count("docrange:ElasticNet.max_iterations");
+                em.case(format!("grid b=ElasticNet task={} penalty={} l1_ratio={} tolerance={} max_iterations={}", task, h(pen), h(l1), h(tol), mi), |ctx| {
+                    train_always();
+                    expect(&[("penalty", dbg(&pen)), ("l1_ratio", dbg(&l1)), ("tolerance", dbg(&tol)), ("max_iterations", dbg(&mi))]);
+                    let (line, ok, fitted) = if task == "single" {
+                        let p = linfa_elasticnet::ElasticNet::<f64>::params().penalty(pen).l1_ratio(l1).tolerance(tol).max_iterations(mi);
+                        let ds = DatasetBase::new(xs(), ys_f());
+                        let fitted = if mi == 0 && finite && p.check_ref().is_ok() { p.fit(&ds).map(|m| format!("hyperplane {:?} intercept {:?}", m.hyperplane(), m.intercept())).map_err(|e| dbg(&e)) } else { Ok(String::new()) };
+                        (probe(ctx, "ElasticNet", || p.clone(), viol.clone(), finite, |p| dbg(p), |c| dbg(c), |e| dbg(&e), |p| res!(p.fit(&ds)), |c| res!(c.fit(&ds))), p.check_ref().is_ok(), fitted)
+                    } else {
+                        let p = linfa_elasticnet::MultiTaskElasticNet::<f64>::params().penalty(pen).l1_ratio(l1).tolerance(tol).max_iterations(mi);
+                        let ds = DatasetBase::new(xs(), ys_2());
+                        (probe(ctx, "ElasticNet", || p.clone(), viol.clone(), finite, |p| dbg(p), |c| dbg(c), |e| dbg(&e), |p| res!(p.fit(&ds)), |c| res!(c.fit(&ds))), p.check_ref().is_ok(), Ok(String::new()))
+                    };
+                    let docrange = viol.is_none() && mi >= 1;
+                    if finite && ok && !docrange && viol.is_none() {
+                        ctx.fail("ok_iff_in_range", "ElasticNet:accepted:doc:max_iterations>=1", format!("max_iterations({}) is outside the documented range [1, inf) (hyperparams.rs parameter table) but the {}-task builder passes check_ref; fit -> {:?}", mi, task, fitted));
+                    }
+                    if finite && !ok && docrange {
+                        ctx.fail("ok_iff_in_range", "ElasticNet:rejected:doc:max_iterations>=1", format!("max_iterations({}) is inside the documented range but is rejected", mi));
+                    }
+                    format!("{} docrange={}", line, docrange as u8)
+                });
+            }
+        }
+    }
+
+    // ---- (4) documentation pins (oracle only).  `Ranges.*.InRange` (Lean) and `viol` (above) are hand transcriptions of
+    //      the doc comments / `#[error]` texts; nothing else reads the documentation.  Every documentation line of the
+    //      anchored files that talks about a range is hashed; an edit (a range column added to a parameter table, a setter
+    //      doc tightened) changes the hash: the transcriptions must be re-read.  `C04_DOCPIN_PRINT=1` prints the table.
+    {
+        let root = std::path::Path::new(env!("CARGO_MANIFEST_DIR")).join("../../repo");
+        let words = ["positive", "negative", "greater", "less", "range", "finite", "zero", "must", "should", "between", "cannot", "at least", "minimum", "maximum", "inf", "interval", "invalid", "[", "("];
+        for (file, pinned) in DOCPINS {
+            em.count("docpin_files");
+            em.case(format!("#docpin file={}", file), |ctx| {
+                let text = std::fs::read_to_string(root.join(file)).unwrap_or_default();
+                let mut hsh: u64 = 0xcbf29ce484222325;
+                let mut n = 0;
+                for l in text.lines() {
+                    let t = l.trim();
+                    let is_doc = t.starts_with("///") || t.starts_with("//!") || t.contains("#[error(");
+                    if is_doc && words.iter().any(|w| t.to_ascii_lowercase().contains(w)) {
+                        n += 1;
+                        for b in t.bytes().chain(std::iter::once(b'\n')) {
+                            hsh = (hsh ^ b as u64).wrapping_mul(0x100000001b3);
+                        }
+                    }
+                }
+                if std::env::var("C04_DOCPIN_PRINT").is_ok() {
+                    eprintln!("    (\"{}\", 0x{:016x}),", file, hsh);
+                }
+                ctx.require(hsh == *pinned, "ok_iff_in_range", &format!("docpin:{}", file), || format!("the documentation lines of {} that state ranges ({} lines) changed (hash {:016x}, pinned {:016x}): the documented ranges transcribed in Model/ParamRanges.lean and harness/src/c04.rs must be re-read against them", file, n, hsh, pinned));
+                "-".to_string()
+            });
+        }
+    }
+}
+
+/// (file relative to the repository, FNV-1a hash of its range-stating documentation lines) — see `#docpin`
+const DOCPINS: &[(&str, u64)] = &[
+    ("src/param_guard.rs", 0x6803b12dc45999ac),
+    ("src/composing/platt_scaling.rs", 0x56c782e5af74c79e),
+    ("algorithms/linfa-clustering/src/k_means/hyperparams.rs", 0x5e3345d27dd34436),
+    ("algorithms/linfa-clustering/src/k_means/errors.rs", 0xf3525902330d222d),
+    ("algorithms/linfa-clustering/src/dbscan/hyperparams.rs", 0xf083bbb7515e3169),
+    ("algorithms/linfa-clustering/src/optics/hyperparams.rs", 0x4ad5f9d90a12534f),
+    ("algorithms/linfa-clustering/src/optics/errors.rs", 0x33ce90dcab3cbeb1),
+    ("algorithms/linfa-clustering/src/gaussian_mixture/hyperparams.rs", 0xe018ebf386bac4c6),
+    ("algorithms/linfa-clustering/src/gaussian_mixture/errors.rs", 0x731d46ef5e832689),
+    ("algorithms/linfa-elasticnet/src/hyperparams.rs", 0x06fa861defedee2b),
+    ("algorithms/linfa-elasticnet/src/error.rs", 0x394acb2f5d04a05b),
+    ("algorithms/linfa-logistic/src/hyperparams.rs", 0x7966b805564ec37b),
+    ("algorithms/linfa-logistic/src/error.rs", 0x868476bc92cadd3d),
+    ("algorithms/linfa-linear/src/glm/hyperparams.rs", 0xc5aefb63489579af),
+    ("algorithms/linfa-linear/src/error.rs", 0xd092b78eb59f669b),
+    ("algorithms/linfa-svm/src/hyperparams.rs", 0x85d9fda2368da3b4),
+    ("algorithms/linfa-svm/src/error.rs", 0x4f931a11a8258d43),
+    ("algorithms/linfa-trees/src/decision_trees/hyperparams.rs", 0x63c6b7ebabde0f5c),
+    ("algorithms/linfa-bayes/src/hyperparams.rs", 0x8a196a86f266ef39),
+    ("algorithms/linfa-bayes/src/error.rs", 0x1d029cc26957b363),
+    ("algorithms/linfa-ftrl/src/hyperparams.rs", 0x473822a72cffe494),
+    ("algorithms/linfa-ftrl/src/error.rs", 0xee8ebdb7b3045aa7),
+    ("algorithms/linfa-pls/src/hyperparams.rs", 0x24c27c08049f71ed),
+    ("algorithms/linfa-pls/src/errors.rs", 0x64f4b915301f4d9b),
+    ("algorithms/linfa-tsne/src/hyperparams.rs", 0x7dbb7d3bab3db38e),
+    ("algorithms/linfa-tsne/src/error.rs", 0x3204c8c7a63aea8d),
+    ("algorithms/linfa-ica/src/hyperparams.rs", 0x989913ba2f4b7a24),
+    ("algorithms/linfa-ica/src/error.rs", 0x87e09fca7484832c),
+    ("algorithms/linfa-reduction/src/diffusion_map/hyperparams.rs", 0x927304e938cca765),
+    ("algorithms/linfa-reduction/src/random_projection/hyperparams.rs", 0x444a7c83cd987137),
+    ("algorithms/linfa-reduction/src/error.rs", 0xf174e8d268f0ad5e),
+    ("algorithms/linfa-hierarchical/src/lib.rs", 0x3783ee49422a0991),
+    ("algorithms/linfa-hierarchical/src/error.rs", 0xbde5c268eea4e960),
+    ("algorithms/linfa-preprocessing/src/countgrams/hyperparams.rs", 0x3bcb60552e21a938),
+    ("algorithms/linfa-preprocessing/src/countgrams/mod.rs", 0x20c520f38b45d4ec),
+    ("algorithms/linfa-preprocessing/src/tf_idf_vectorization.rs", 0x9a1b36ffadcb9050),
+    ("algorithms/linfa-preprocessing/src/error.rs", 0x584852a95ef92d52),
+];
